@@ -491,6 +491,36 @@ func (fi *FnInfo) trackPhis() {
 			}
 		}
 	}
+	// a phi fed by a tracked phi carries the same knowledge on (a failure variable accumulated over several steps:
+	// `var failure error; if a {failure = e1}; if b {failure = e2}; return failure`)
+	for changed := true; changed; {
+		changed = false
+		for _, b := range fi.Fn.Blocks {
+			for _, in := range b.Instrs {
+				p, ok := in.(*ssa.Phi)
+				if !ok {
+					break
+				}
+				if _, done := fi.phiIdx[p]; done || len(fi.phiIdx) >= 8 {
+					continue
+				}
+				switch p.Type().Underlying().(type) {
+				case *types.Pointer, *types.Interface, *types.Map, *types.Slice, *types.Signature:
+				default:
+					continue
+				}
+				for _, e := range p.Edges {
+					if q, ok := e.(*ssa.Phi); ok {
+						if _, tr := fi.phiIdx[q]; tr {
+							fi.phiIdx[p] = len(fi.phiIdx)
+							changed = true
+							break
+						}
+					}
+				}
+			}
+		}
+	}
 }
 
 // trackLoads: immutable field paths of parameters that are nil-tested more
@@ -715,7 +745,15 @@ func (fi *FnInfo) clobber(c ssa.CallInstruction, m uint64) uint64 {
 			continue
 		}
 		if mod[stKey{namedOf(k.base.Type()), k.field}] {
-			m &^= 1 << uint(ci)
+			kept := false
+			for ai, a := range c.Common().Args {
+				if unwrap(a) == k.base && !c.Common().IsInvoke() && fi.W.keepsFailure(g, ai, k.field, map[*ssa.Function]bool{}) {
+					kept = true
+				}
+			}
+			if !kept {
+				m &^= 1 << uint(ci)
+			}
 		}
 	}
 	return m
@@ -804,6 +842,10 @@ type ExitSum struct {
 	Class   int
 	Checked map[string]string // label -> site
 	Tail    string            // callee composed as a tail call, if any
+	// the verdict is the error cell of an object the function was handed: success also requires that the
+	// cell was not already set when the function was entered (decided at each call site)
+	InheritParam int // index of that parameter, -1 if none
+	InheritField int
 }
 
 // Summary of a function under a mode.
@@ -884,6 +926,17 @@ func (fi *FnInfo) classify(r *ssa.Return, st state, mode Mode) (int, *ssa.Call, 
 		}
 		if fi.nonNil(v, atBlock) {
 			return clFail, nil, Mode{}, ""
+		}
+		if p, ok := v.(*ssa.Phi); ok {
+			fi.trackPhis()
+			if idx, tracked := fi.phiIdx[p]; tracked {
+				switch (st.m >> uint(32+2*idx)) & 3 {
+				case 1:
+					return clSuccess, nil, Mode{}, ""
+				case 2:
+					return clFail, nil, Mode{}, ""
+				}
+			}
 		}
 		if ci := fi.cellOfLoad(v); ci >= 0 {
 			if st.m&(1<<uint(ci)) != 0 {
@@ -1146,6 +1199,38 @@ func (w *World) summarizeCall(c *ssa.Call, mode Mode) *Summary {
 	return out
 }
 
+// exitLabelsOfCall returns, for each success-capable exit of the static module callee of c under mode, its facts
+// rewritten into the caller's frame (for disjunctive obligations, which the intersection in summarizeCall loses).
+func (w *World) exitLabelsOfCall(c *ssa.Call, mode Mode) []map[string]string {
+	g := staticCallee(c)
+	if g == nil || g.Blocks == nil || !w.IsProductFn(g) {
+		return nil
+	}
+	s := w.Summarize(g, mode)
+	if s == nil || !s.Complete {
+		return nil
+	}
+	args := c.Call.Args
+	if len(args) != len(g.Params) {
+		return nil
+	}
+	names := make([]string, len(args))
+	descs := make([]string, len(args))
+	for i, p := range g.Params {
+		names[i] = p.Name()
+		descs[i] = desc(args[i])
+	}
+	var out []map[string]string
+	for _, ex := range s.Exits {
+		m := map[string]string{}
+		for l, site := range ex.Checked {
+			m[substParams(l, names, descs)] = site
+		}
+		out = append(out, m)
+	}
+	return out
+}
+
 // substParams replaces each "param:<name>" (whole identifier) in label.
 func substParams(label string, names, descs []string) string {
 	if !strings.Contains(label, "param:") {
@@ -1231,13 +1316,18 @@ func (fi *FnInfo) summarizeFrom(mode Mode, starts []state, baseCut map[edgeKey]b
 		if !ok {
 			continue
 		}
-		cl, tail, tmode, oplbl := fi.classify(r, state{st.b, fi.through(fi.Fn.Blocks[st.b], st.m), st.p}, mode)
+		endMask := fi.through(fi.Fn.Blocks[st.b], st.m)
+		cl, tail, tmode, oplbl := fi.classify(r, state{st.b, endMask, st.p}, mode)
 		if cl == clFail {
 			continue
 		}
+		if tail != nil && fi.tailBlockedByCell(tail, tmode, endMask) {
+			continue // the callee reports the error cell of an object that already carries a failure on this path
+		}
 		ek := exitKey{r, st.p}
 		if _, ok := exits[ek]; !ok {
-			exits[ek] = &ExitSum{Ret: r, Pred: st.p, Class: cl, Checked: map[string]string{}}
+			ip, ifld := fi.inheritedCell(r, st.p, mode)
+			exits[ek] = &ExitSum{Ret: r, Pred: st.p, Class: cl, Checked: map[string]string{}, InheritParam: ip, InheritField: ifld}
 			order = append(order, ek)
 		}
 		if tail != nil {
@@ -1366,6 +1456,118 @@ func (fi *FnInfo) summarizeFrom(mode Mode, starts []state, baseCut map[edgeKey]b
 		}
 	}
 	return s
+}
+
+// inheritedCell: the operand returned under mode is (a load of) the error cell of an object that is a parameter of fn.
+func (fi *FnInfo) inheritedCell(r *ssa.Return, pred int, mode Mode) (int, int) {
+	v := modeOperand(r, mode)
+	if v == nil {
+		return -1, -1
+	}
+	if p, ok := v.(*ssa.Phi); ok && p.Block() == r.Block() && pred >= 0 && pred < len(p.Edges) {
+		v = p.Edges[pred]
+	}
+	var base ssa.Value
+	field := -1
+	switch mode.Kind {
+	case mErr:
+		if u, ok := v.(*ssa.UnOp); ok && u.Op == token.MUL {
+			if fa, ok := u.X.(*ssa.FieldAddr); ok {
+				base, field = fa.X, fa.Field
+			}
+		}
+	case mObj:
+		base, field = v, errFieldOf(v.Type())
+	}
+	if base == nil || field < 0 {
+		return -1, -1
+	}
+	for i, p := range fi.Fn.Params {
+		if ssa.Value(p) == base {
+			return i, field
+		}
+	}
+	return -1, -1
+}
+
+// tailBlockedByCell: every success-capable exit of the tail callee reports the error cell of an object it was
+// handed, and at this call that cell is already known to hold a failure: the tail cannot report success here.
+func (fi *FnInfo) tailBlockedByCell(tail *ssa.Call, tmode Mode, mask uint64) bool {
+	g := staticCallee(tail)
+	if g == nil || g.Blocks == nil || !fi.W.IsProductFn(g) {
+		return false
+	}
+	s := fi.W.Summarize(g, tmode)
+	if s == nil || !s.Complete || len(s.Exits) == 0 {
+		return false
+	}
+	for _, ex := range s.Exits {
+		if ex.InheritParam < 0 || ex.InheritParam >= len(tail.Call.Args) {
+			return false
+		}
+		obj := unwrap(tail.Call.Args[ex.InheritParam])
+		ci, ok := fi.cellOf[cellKey{obj, ex.InheritField}]
+		if !ok || mask&(1<<uint(ci)) == 0 {
+			return false
+		}
+	}
+	return true
+}
+
+// keepsFailure: g never makes the error cell (param i).field nil or unknown again — every store it performs into that
+// field of that parameter (directly, or in a module callee it hands the parameter to) stores a provably non-nil value.
+func (w *World) keepsFailure(g *ssa.Function, i int, field int, seen map[*ssa.Function]bool) bool {
+	if g == nil || g.Blocks == nil || i >= len(g.Params) {
+		return false
+	}
+	if seen[g] {
+		return true
+	}
+	seen[g] = true
+	gi := w.Info(g)
+	p := g.Params[i]
+	for _, b := range g.Blocks {
+		for _, in := range b.Instrs {
+			switch x := in.(type) {
+			case *ssa.Store:
+				if fa, ok := x.Addr.(*ssa.FieldAddr); ok && fa.Field == field && fa.X == ssa.Value(p) {
+					if !gi.nonNil(x.Val, b) {
+						return false
+					}
+				}
+				if x.Val == ssa.Value(p) {
+					return false // the object escapes into memory
+				}
+			case ssa.CallInstruction:
+				for j, a := range x.Common().Args {
+					if unwrap(a) != ssa.Value(p) {
+						continue
+					}
+					h := staticCallee(x)
+					if h == nil {
+						return false // handed to a dynamic call
+					}
+					if h.Blocks == nil || !w.IsProductFn(h) {
+						continue // external code cannot name the module's field
+					}
+					k := j
+					if x.Common().IsInvoke() {
+						return false
+					}
+					if !w.keepsFailure(h, k, field, seen) {
+						return false
+					}
+				}
+			case *ssa.MakeClosure:
+				for _, bnd := range x.Bindings {
+					if bnd == ssa.Value(p) {
+						return false
+					}
+				}
+			}
+		}
+	}
+	return true
 }
 
 // descTailErr describes the error result of a call the way desc() would
